@@ -50,6 +50,17 @@ CHECKS["C01"] = {
     "technique": "symbolic execution (CrossHair/z3) of the whole dds analysis + evaluation on template programs with symbolic module variables / arguments / histories under an ideal-hash model, differential against a dds-free plain twin",
 }
 
+CHECKS["C02"] = {
+    "text": "Same engine as C01 with two observation points - the execution log of the generated code and the path -> signature map handed to Store.sync_paths: for histories (s, s), (s, s', s) and for edits outside a kept node's dependency cone (DESIGN.md 4.1: unrelated variable, unrelated definitions / reordering, non-accepted module body or variable, sibling's private dependency, copy of the code in another accepted module, restart, entry-style switch) no kept body is executed and the node's signature is equal, for every value of the tracked variables (solver variables). Bounded by the template corpus.",
+    "design_ref": "DESIGN.md 5-C02, 4.1",
+    "technique": "symbolic execution (CrossHair/z3) of the whole analysis + evaluation on template programs; execution log and signature equality over histories that agree on the dependency cone",
+}
+CHECKS["C03"] = {
+    "text": "Non-interference by self-composition: in one symbolic path the same template state is analysed twice under two environment valuations (disjoint object identities, different module file names / code objects, memory vs cache-wrapped store, extra_debug and graph export on/off, fresh process vs a process that evaluated other states, edited code and a name-clashing other program before) and the path -> signature maps must be equal for all leaf values; plus a differential query against /verif/ref/dds_ref, a frozen copy of the library, under one shared interning table (equal tokens = byte-identical SHA-256 signatures) for all leaf values; plus a native run with the real hashlib against pinned signatures (validates the hash-model assumption).",
+    "design_ref": "DESIGN.md 5-C03",
+    "technique": "symbolic execution (CrossHair/z3): self-composition over two environment valuations + differential execution against a frozen reference copy of the library",
+}
+
 NOT_APPLICABLE = {}
 
 
